@@ -52,3 +52,7 @@ CLAIMED["C30"] = (
  "AST shape rules and SSA path analysis over apptest.runTest (report=>record, record=>verdict, failing exits print FAIL, contract comparison operators, infrastructure errors reach a non-zero exit)",
  "Decides the verdict plumbing of `wa test`: every printed failure is recorded or exits non-zero, a recorded failure prints FAIL and exits non-zero, the ok line cannot be reached with a recorded failure, the output/panic contracts are compared the way the property states, and load/compile/assemble/instantiate errors exit non-zero on every path. Does not decide output normalisation, pattern selection or the loader's extraction of expected output.",
  SSA_BASE)
+CLAIMED["C21"] = (
+ "SSA dominance and path rules over the language server's document cache (who-writes, error=>no store, success=>store, key derivation, mapper rebuilt per change, splice order, range rejection)",
+ "Decides the store discipline around LSPServer.fileMap and the sequential application of incremental changes: only the notification handlers write the cache, an error from changedText never reaches the store, every acknowledged change is stored (one known exception recorded), keys are URI.Path() everywhere, the mapper is rebuilt on the loop-carried content, the splice is prefix+text+suffix, invalid ranges are rejected. Does not decide the UTF-16 position arithmetic.",
+ SSA_BASE)
